@@ -157,7 +157,9 @@ TIE_THEOREM = {"Secs": "secs_tie", "NoteDur": "noteDur_tie", "BpmDecode": "bpmDe
                "Nps": "nps_tie", "Anchor": "anchor_tie", "Hopo": "hopo_tie", "Scan": "scan_tie",
                "Phrase": ["tickAdd_tie", "endTick_tie", "after_tie", "during_tie"],
                "TsAt": ["tsAt_tie", "between_tie", "timeAdd_float_tie", "timeAdd_td_tie"],
-               "BpmStep": ["bpmStep_tie", "tsLower_tie"]}
+               "BpmStep": ["bpmStep_tie", "tsLower_tie"],
+               "Compose": ["buildFrom_eq_code", "tsAt_of_code", "C01_query_code", "C01_zero_code", "C11_hint_invariant_code", "C11_hint_reject_code",
+                           "query_errors_are_ValueError_code"]}
 
 
 def leaf_ties(prop, st, tier="quick") -> dict:
